@@ -444,8 +444,13 @@ func checkC01(c *Ctx) {
 				if verdict.Parent() == stopFn {
 					vat = verdict
 				}
-				eachInstr(vfn, func(in ssa.Instruction) {
-					if s, ok := in.(*ssa.Select); ok && s.Blocking && dominatesInstr(in, vat) {
+				m.eachUnitInstr(vfn, func(in ssa.Instruction) {
+					s, ok := in.(*ssa.Select)
+					if !ok || !s.Blocking {
+						return
+					}
+					// in the stop function itself, or in a wait helper it calls from one place
+					if lifted := m.liftTo(vfn, in); lifted != nil && lifted != vat && dominatesInstr(lifted, vat) && (in.Parent() == vfn || m.dominatesReturns(in)) {
 						wait = in
 					}
 				})
